@@ -651,6 +651,27 @@ func main() {
 		consts = append(consts, policyFile.rel+":"+c)
 	}
 	sort.Strings(consts)
+	// the Env field of every packages.Config literal outside test helpers: the environment the go
+	// command is run with when untrusted code is loaded
+	var loaderEnvs []string
+	for _, f := range []*file{fpr, scan, chk, dl, load(root, "internal/cli/utils.go"), load(root, "internal/cli/index.go"), load(root, "pkg/analysis/ir/builder.go")} {
+		ast.Inspect(f.f, func(n ast.Node) bool {
+			cl, ok := n.(*ast.CompositeLit)
+			if !ok || cl.Type == nil || exprStr(cl.Type) != "packages.Config" {
+				return true
+			}
+			env := "<unset>"
+			for _, el := range cl.Elts {
+				if kv, ok := el.(*ast.KeyValueExpr); ok && exprStr(kv.Key) == "Env" {
+					env = exprStr(kv.Value)
+				}
+			}
+			loaderEnvs = append(loaderEnvs, f.rel+":Env="+env)
+			return true
+		})
+	}
+	sort.Strings(loaderEnvs)
+	emit("loaderEnvs", "Env of every packages.Config literal in the product code", loaderEnvs)
 	emit("limits", "numeric limits and thresholds read from the source: file:Name=expression", consts)
 	_ = loopDecls
 	fmt.Println("\nend Sfw.Facts")
